@@ -253,6 +253,55 @@ def dedup : List (List Char) → List (List Char) → List (List Char)
 
 def parseBuildTags (flags : List (List Char)) : List (List Char) := dedup [] (collectTags flags)
 
+/-! ### `CheckTags`: which `// +build` expressions hold under the tags of the command line
+
+`buildtags.CheckTags` writes one virtual file `// +build <expr>` per requested expression and asks `go/build`'s
+`MatchFile`.  go/build is not llgo code; its evaluation of an old-style constraint line (`constraint.parsePlusBuildExpr`
++ `Context.matchTag`) is modelled here so that the WHOLE function has a model: blank-separated options are OR-ed,
+comma-separated terms AND-ed, `!` negates, a malformed term stands for the tag `ignore`. -/
+
+def isValidTagChar (c : Char) : Bool := c.isAlphanum || c = '_' || c = '.'
+def isValidTag (l : List Char) : Bool := !l.isEmpty && l.all isValidTagChar
+
+def ignoreTag : List Char := "ignore".toList
+
+/-- one term of a clause -/
+def evalLit (has : List Char → Bool) (lit : List Char) : Bool :=
+  match lit with
+  | ['!'] => has ignoreTag
+  | '!' :: '!' :: _ => has ignoreTag
+  | '!' :: rest => !(if isValidTag rest then has rest else has ignoreTag)
+  | _ => if isValidTag lit then has lit else has ignoreTag
+
+/-- `strings.Split(s, ",")` -/
+def splitComma (cur : List Char) : List Char → List (List Char)
+  | [] => [cur.reverse]
+  | c :: rest => if c = ',' then cur.reverse :: splitComma [] rest else splitComma (c :: cur) rest
+
+def evalClause (has : List Char → Bool) (clause : List Char) : Bool := (splitComma [] clause).all (evalLit has)
+
+def isBlankChar (c : Char) : Bool := c = ' ' || c = '\t'
+/-- `strings.Fields` on the alphabet of the generator (blank and tab) -/
+def blankFields (cur : List Char) : List Char → List (List Char)
+  | [] => if cur.isEmpty then [] else [cur.reverse]
+  | c :: rest => if isBlankChar c then (if cur.isEmpty then blankFields [] rest else cur.reverse :: blankFields [] rest)
+                 else blankFields (c :: cur) rest
+
+def evalPlusBuild (has : List Char → Bool) (expr : List Char) : Bool :=
+  match blankFields [] expr with
+  | [] => has ignoreTag
+  | cs => cs.any (evalClause has)
+
+/-- tags that hold without being named on the command line (linux/amd64 host, gc toolchain) -/
+def implicitTags : List (List Char) := ["linux".toList, "amd64".toList, "gc".toList, "unix".toList]
+
+def hasTag (flags : List (List Char)) (t : List Char) : Bool :=
+  (parseBuildTags flags).contains t || implicitTags.contains t
+
+/-- `CheckTags(flags, m)`: every expression that holds is set to true; nothing is ever reset -/
+def checkTags (flags : List (List Char)) (m : List (List Char × Bool)) : List (List Char × Bool) :=
+  m.map fun (e, v) => (e, v || evalPlusBuild (hasTag flags) e)
+
 /-! ## env.ExpandEnvWithDefault -/
 
 /-- `strings.ReplaceAll(s, old, new)` for non-empty `old` -/
